@@ -1,6 +1,6 @@
 CONSTANTS
   GC = FALSE
-  NonTailIf = FALSE
+  Broken = "none"
   Family = "tail-fin-2"
   MaxKont = 4
 SPECIFICATION Spec
